@@ -237,6 +237,8 @@ where
     /// assert!(a.out_degree() == 2);
     /// ```
     pub fn degree(&self) -> usize {
+        #[cfg(gdsl_verif)]
+        crate::verif_hooks::lock_point(&self.inner.2, crate::verif_hooks::Mode::Read);
         let adjacent = self.inner.2.read().unwrap();
         adjacent.len_outbound() + adjacent.len_inbound()
     }
@@ -259,11 +261,15 @@ where
     /// assert!(n1.is_connected(n2.key()));
     /// ```
     pub fn connect(&self, other: &Self, value: E) {
+        #[cfg(gdsl_verif)]
+        crate::verif_hooks::lock_point(&self.inner.2, crate::verif_hooks::Mode::Write);
         self.inner
             .2
             .write()
             .unwrap()
             .push_outbound((other.clone(), value.clone()));
+        #[cfg(gdsl_verif)]
+        crate::verif_hooks::lock_point(&other.inner.2, crate::verif_hooks::Mode::Write);
         other
             .inner
             .2
@@ -332,14 +338,22 @@ where
             Some(other) => {
                 // An edge is stored as one half at each endpoint: inbound
                 // here pairs with outbound there and vice versa.
+                #[cfg(gdsl_verif)]
+                crate::verif_hooks::lock_point(&self.inner.2, crate::verif_hooks::Mode::Write);
                 let inbound = self.inner.2.write().unwrap().remove_inbound(other.key());
                 match inbound {
                     Ok(edge) => {
+                        #[cfg(gdsl_verif)]
+                        crate::verif_hooks::lock_point(&other.inner.2, crate::verif_hooks::Mode::Write);
                         other.inner.2.write().unwrap().remove_outbound(self.key())?;
                         Ok(edge)
                     }
                     Err(_) => {
+                        #[cfg(gdsl_verif)]
+                        crate::verif_hooks::lock_point(&self.inner.2, crate::verif_hooks::Mode::Write);
                         let edge = self.inner.2.write().unwrap().remove_outbound(other.key())?;
+                        #[cfg(gdsl_verif)]
+                        crate::verif_hooks::lock_point(&other.inner.2, crate::verif_hooks::Mode::Write);
                         other.inner.2.write().unwrap().remove_inbound(self.key())?;
                         Ok(edge)
                     }
@@ -378,6 +392,8 @@ where
     /// ```
     pub fn isolate(&self) {
         for Edge(_, v, _) in self.iter() {
+            #[cfg(gdsl_verif)]
+            crate::verif_hooks::lock_point(&v.inner.2, crate::verif_hooks::Mode::Write);
             if v.inner
                 .2
                 .write()
@@ -385,6 +401,8 @@ where
                 .remove_inbound(self.key())
                 .is_err()
             {
+                #[cfg(gdsl_verif)]
+                crate::verif_hooks::lock_point(&v.inner.2, crate::verif_hooks::Mode::Write);
                 v.inner
                     .2
                     .write()
@@ -393,13 +411,19 @@ where
                     .unwrap();
             }
         }
+        #[cfg(gdsl_verif)]
+        crate::verif_hooks::lock_point(&self.inner.2, crate::verif_hooks::Mode::Write);
         self.inner.2.write().unwrap().clear_outbound();
+        #[cfg(gdsl_verif)]
+        crate::verif_hooks::lock_point(&self.inner.2, crate::verif_hooks::Mode::Write);
         self.inner.2.write().unwrap().clear_inbound();
     }
 
     /// Returns true if the node is an oprhan. Orphan nodes are nodes that have
     /// no connections.
     pub fn is_orphan(&self) -> bool {
+        #[cfg(gdsl_verif)]
+        crate::verif_hooks::lock_point(&self.inner.2, crate::verif_hooks::Mode::Read);
         let adjacent = self.inner.2.read().unwrap();
         adjacent.len_outbound() == 0 && adjacent.len_inbound() == 0
     }
@@ -412,6 +436,8 @@ where
     /// Get a pointer to an adjacent node with a given key. Returns None if no
     /// node with the given key is found from the node's adjacency list.
     pub fn find_adjacent(&self, other: &K) -> Option<Node<K, N, E>> {
+        #[cfg(gdsl_verif)]
+        crate::verif_hooks::lock_point(&self.inner.2, crate::verif_hooks::Mode::Read);
         self.inner
             .2
             .read()
@@ -458,6 +484,8 @@ where
     }
 
     pub fn sizeof(&self) -> usize {
+        #[cfg(gdsl_verif)]
+        crate::verif_hooks::lock_point(&self.inner.2, crate::verif_hooks::Mode::Read);
         std::mem::size_of::<Node<K, N, E>>()
             + std::mem::size_of::<K>()
             + std::mem::size_of::<N>()
@@ -540,6 +568,8 @@ where
     type Item = Edge<K, N, E>;
 
     fn next(&mut self) -> Option<Self::Item> {
+        #[cfg(gdsl_verif)]
+        crate::verif_hooks::lock_point(&self.node.inner.2, crate::verif_hooks::Mode::Read);
         let adjacent = &self.node.inner.2.read().unwrap();
         match adjacent.get_adjacent(self.position) {
             Some((n, e)) => {
